@@ -294,7 +294,7 @@ func (p *c08) RandomRuns(tier string) int {
 	if tier == "thorough" {
 		return 3000000
 	}
-	return 40000
+	return 30000
 }
 
 type c08Eval struct {
